@@ -218,6 +218,7 @@ class Engine:
         self._feas_cache = {}
         self._vars_cache = {}
         self._keep = []
+        self.def_ids = set()
         self.errvars = []       # rounded-mode error variables (name, bound)
         self.side = []          # global side constraints (atoms characterisations) as (z3 bool)
         self.path_results = []
@@ -844,6 +845,12 @@ class Engine:
             return "QF_LIRA"
         return None
 
+    def mark_def(self, e):
+        """constraint that only characterises engine-created atoms (it restricts no harness input)"""
+        self.def_ids.add(e.get_id())
+        self._keep.append(e)
+        return e
+
     def slice_pc(self, pc, goal_exprs):
         """cone of influence: conjuncts of pc (and side constraints) sharing variables with goal"""
         allc = list(pc) + self.side
@@ -858,15 +865,18 @@ class Engine:
         # engine-created variables (sqrt!k, atan!k, sin(atan!k), loop_x!k ...) are defined by the constraints that
         # mention them: such a constraint matters only if one of its fresh variables is already relevant.
         # Constraints over harness inputs only are kept when they share a variable with the relevant set.
+        nside = len(pc)
         fresh = [frozenset(v for v in cv if "!" in v) for cv, _ in infos]
+        isdef = [(i >= nside) or (c.get_id() in self.def_ids) for i, c in enumerate(allc)]
         while changed:
             changed = False
             for i, (cv, _) in enumerate(infos):
                 if chosen[i]:
                     continue
-                if fresh[i]:
+                if fresh[i] and isdef[i]:
                     hit = bool(fresh[i] & vs)
                 else:
+                    # branch conditions and assumptions restrict the inputs even when they mention atoms
                     hit = bool(cv & vs) or not cv
                 if hit:
                     chosen[i] = True
